@@ -1,6 +1,7 @@
 CONSTANTS
   MaxHeadings = 3
   MaxLevel = 3
+  VariantSet = {1, 2, 3, 4, 5, 6}
 INIT Init
 NEXT Next
 INVARIANT IndentNestingIsLevelNesting
